@@ -207,6 +207,42 @@ theorem C05_signal_only_when_first_slot_frees_counterexample :
 example : ((grunSched false fan4 (ginit fan4) fan4Sched).map fun g =>
     (g.asleep 4, (gstepV false fan4 g (.tgt 4)).isSome)) = some (false, true) := by decide +kernel
 
+/-- `0 → 1`, limit one -/
+def chain2 : Params where
+  deps := fun l => match l with | 0 => [1] | _ => []
+  known := fun _ => true
+  bodyOk := fun _ => true
+  cap := 1
+  root := 0
+
+def chain2Sched : List Tid := [.main, .tgt 0, .tgt 0, .tgt 0, .tgt 0, .tgt 0, .tgt 0, .tgt 0, .tgt 0, .tgt 1, .tgt 1, .tgt 1, .tgt 1, .tgt 1, .tgt 1, .tgt 1, .tgt 1, .tgt 1, .tgt 1, .tgt 0, .tgt 0, .tgt 0, .tgt 1, .tgt 1, .tgt 0]
+
+theorem ureachable_of_urunSched {P : Params} (ts : List Tid) {u0 u : UState} (h0 : UReachable P u0)
+    (h : urunSched P u0 ts = some u) : UReachable P u := by
+  induction ts generalizing u0 with
+  | nil => simp [urunSched] at h; subst h; exact h0
+  | cons t ts ih =>
+    simp only [urunSched] at h
+    split at h
+    next u1 hu1 => exact ih (UReachable.step t h0 hu1) h
+    · cases h
+
+/-- Regression witness (seeded change: atomic capacity, `gate.exit` no longer takes the gate's mutex). With the
+    capacity test and `cond.Wait` two steps (`ustep`), limit ONE and the chain `0 → 1`: target 0, coming back from its
+    dependency wait, sees the gate full (1 still holds the slot); 1 releases and signals — nobody waits yet; 0 then
+    waits, for ever, next to a free slot. `C09_no_lost_wakeup` and `C09_completes_with_limit_one` fail for that gate;
+    they hold for the code because test-and-sleep is one critical section that `exit` has to enter too
+    (`Ties/RunnerGate.lean`: `skel_enter_ok`, `skel_exit_ok`). -/
+theorem C09_unlocked_exit_counterexample :
+    ∃ u, UReachable chain2 u ∧ u.g.core.isDone = false ∧ u.g.asleep 0 = true ∧ u.g.core.capacity = 1 ∧
+      (threads u.g.core).all (fun t => (ustep chain2 u t).isNone) = true := by
+  have h : ∃ u, urunSched chain2 (uinit chain2) chain2Sched = some u ∧ u.g.core.isDone = false ∧
+      u.g.asleep 0 = true ∧ u.g.core.capacity = 1 ∧
+      (threads u.g.core).all (fun t => (ustep chain2 u t).isNone) = true := by
+    decide +kernel
+  obtain ⟨u, h1, h2⟩ := h
+  exact ⟨u, ureachable_of_urunSched _ .init h1, h2⟩
+
 /-! ### the status wait with `cond.Wait` / `cond.Broadcast` made explicit
 
 `WState` / `wstep` refine the gate-level model once more: a dependent (or the caller of `Run`) that finds the target
